@@ -120,6 +120,8 @@ SKELETONS = {
     'math-verbatim': ('article', ['\\section{T}', L(), ' $', L('raw'), '$ ', L(), ' \\[', L('raw'), '\\] ', L(), '\\begin{verbatim}', L('raw'), '\\end{verbatim}', L(),
                                   ' \\verb|', L('raw'), '| ', L()]),
     'math-groups': ('article', ['\\section{T}', L(), ' $^{', L('mathgroup'), '}$ ', L(), ' ${', L('mathgroup'), '}$ ', L(), '\\begin{equation}_{', L('mathgroup'), '}\\end{equation}', L()]),
+    'single-paragraph': ('article', [L(), ' \\emph{', L(), '} ', L(), ' {\\small ', L(), '}']),          # no paragraph break, no heading anywhere in the body
+    'single-environment': ('article', ['\\begin{center}', L(), '\\end{center}']),
     'plain-paragraphs': ('article', [L(), '\n\n', L(), ' \\textit{', L(), '}\n\n', L()]),
 }
 
